@@ -4,7 +4,7 @@
   try_seeded.py <worktree> <seed-id> <property> [more properties...]
 1. in the worktree: 51 tests pass with the change; demo fails with it and passes without it;
 2. store patch.diff + demo.py + meta.json under /verif/seeded/<seed-id>/;
-3. apply the patch to /repo, run the quick checks of the given properties, revert /repo.
+3. apply the patch to a scratch copy of /repo HEAD (VERIF_REPO), run the quick checks of the given properties, delete the copy.
 """
 import json
 import os
@@ -30,9 +30,9 @@ def main():
         rc, tests = sh('/venv/bin/python -m pytest -q -p no:cacheprovider tests 2>&1 | tail -1', cwd=wt)
         rc_fail, demo_fail = sh('/venv/bin/python demo.py 2>&1 | tail -5', cwd=wt)
         rc_fail = sh('/venv/bin/python demo.py > /dev/null 2>&1', cwd=wt)[0]
-        sh('git -C %s stash' % wt)
+        sh('git -C %s apply -R patch.diff' % wt)
         rc_pass = sh('/venv/bin/python demo.py > /dev/null 2>&1', cwd=wt)[0]
-        sh('git -C %s stash pop' % wt)
+        sh('git -C %s apply patch.diff' % wt)
         meta.update(tests_with_change=tests.strip(), demo_exit_with_change=rc_fail, demo_exit_without_change=rc_pass, demo_tail=demo_fail.strip()[-400:])
         print('tests:', tests.strip(), '| demo with change exit', rc_fail, '| without', rc_pass)
         if 'passed' not in tests or 'failed' in tests or rc_fail == 0 or rc_pass != 0:
@@ -42,28 +42,31 @@ def main():
         shutil.copy(os.path.join(wt, 'patch.diff'), dst)
         shutil.copy(os.path.join(wt, 'demo.py'), dst)
     patch = os.path.join(dst, 'patch.diff')
-    # the patch was made against the worktree's HEAD; apply to /repo (3-way tolerant)
-    rc, out = sh('git -C /repo apply --check %s' % patch)
+    # the checks run against a scratch copy of /repo's HEAD with the patch applied (VERIF_REPO), so that
+    # background runs that use /repo itself are not disturbed; /repo is never touched
+    scratch = '/var/tmp/verif_try_%d' % os.getpid()
+    shutil.rmtree(scratch, ignore_errors=True)
+    os.makedirs(scratch)
+    rc, out = sh('git -C /repo archive HEAD | tar -x -C %s' % scratch)
+    rc, out = sh('patch -p1 -s -i %s' % patch, cwd=scratch)
     if rc != 0:
         print('patch does not apply to /repo HEAD:', out)
         meta['applies_to_repo_head'] = False
         json.dump(meta, open(os.path.join(dst, 'meta.json'), 'w'), indent=1)
+        shutil.rmtree(scratch, ignore_errors=True)
         return 1
-    sh('git -C /repo apply %s' % patch)
     results = {}
     try:
         for p in props:
             t0 = time.time()
-            rc, out = sh('./check %s --tier quick --no-evidence' % p, cwd=HERE, timeout=1800)
+            rc, out = sh('VERIF_REPO=%s ./check %s --tier quick --no-evidence' % (scratch, p), cwd=HERE, timeout=1800)
             sigs = [l.split()[1] for l in out.splitlines() if l.startswith('SIGNATURE ')]
             results[p] = {'exit': rc, 'signatures': sigs[:6], 'wall_s': round(time.time() - t0, 1)}
             print(p, 'exit', rc, sigs[:4], '%.0fs' % (time.time() - t0))
             if rc == 2:
                 print(out[-1500:])
     finally:
-        sh('git -C /repo checkout -- .')
-    rc, out = sh('git -C /repo status --porcelain --untracked-files=no')
-    assert not out.strip(), out
+        shutil.rmtree(scratch, ignore_errors=True)
     meta['quick_check_results'] = results
     meta['caught_by'] = [p for p, r in results.items() if r['exit'] == 1]
     old = {}
